@@ -113,12 +113,13 @@ PROPS = {
         technique="Lean 4 proof (invariant over every prefix of the step list) + strace trace conformance + exhaustive kill-point injection",
     ),
     "C09": dict(
-        modules=["Copia.Props.C09"], namespaces=["Copia.C09"], runner="bb", bb_module="bb_crash9", timeout=3000,
+        modules=["Copia.Props.C09", "Copia.Props.C09b"], namespaces=["Copia.C09"], runner="bb", bb_module="bb_crash9", timeout=3000,
         assumptions=_OW_ASSUME + ["'killed at any instant' = before any libc call of any copia thread (strace injection, per-thread counters); kills inside one write are covered by the staging file being opaque until renamed",
                                   "for push the remote command runs to completion on whatever part of the stream arrived (the property's setting)"],
         trusted_base=_OW_TB + ["strace (signal injection, -b execve)"],
         level_text="Kernel-checked theorems over the delivery micro-steps: after ANY prefix of open-staging / chunk* / rename / set-mtime the live destination is its complete old or the complete new content (local, pull); "
-                   "for push, for EVERY cut of the input stream, the remote command `cat > tmp && [ size = announced ] && mv` leaves old or complete new content. Tie (partial): real kills before every j-th call of each write-type syscall in all three "
+                   "for push, for EVERY cut of the input stream, the remote command `cat > tmp && [ size = announced ] && mv` leaves old or complete new content. WHOLE RUN (`parallel_atomic`): for any number of files delivered concurrently (`--jobs N`), "
+                   "after ANY interleaving of ANY prefixes of the per-file deliveries every destination path holds its complete old or complete new bytes and a path no delivery was started for is untouched. Tie (partial): real kills before every j-th call of each write-type syscall in all three "
                    "directions; old-or-new, outside-plan and re-run predicates on the real trees.",
         level_note="Partial: proof of the step model + exhaustive (syscall, j) kill sweep; thread scheduling makes j ↦ state non-deterministic, predicates are state-based.",
         technique="Lean 4 proof (prefix invariant of the delivery steps; stream-cut lemma for the remote command) + kill-point injection in three directions",
